@@ -84,11 +84,12 @@ def run(ctx):
     # translation validation for theorem C20_inferred_contract_true: the final state of the transcribed work list is a
     # post-fixpoint (`stable`) on every function seen, the abstract SSA forms are well-formed, and every contract
     # inferred for a plain function passed infer_checked (= the theorem's hypothesis)
-    ctx.obligation("validated inference: the final state of inferContracts is a post-fixpoint (stable) on all %d functions, all well-formed; %d are plain; of the %d contracts inferred %d are for plain functions and all %d of those satisfy the hypothesis of C20_inferred_contract_true" % (
-        len(ir["funcs"]), ir["plain"], ir["inferred"], ir["inferred_plain"], ir["inferred_validated"]),
-        not ir["unstable"] and not ir["illformed"] and not ir["unvalidated"])
+    ctx.obligation("inference soundness hypotheses: all %d abstract SSA forms are well-formed (wf_fn, wf_cfg), the final state of inferContracts is a post-fixpoint (stable) on each (as C20_worklist_ends_in_postfixpoint proves), and all %d contracts inferred satisfy the hypothesis of C20_inferred_contract_true; the in-step semantics of wrapper values is exact (semiplain) for %d functions, %d of the inferred ones (plain: %d / %d)" % (
+        len(ir["funcs"]), ir["inferred"], ir["semiplain"], ir["inferred_semiplain"], ir["plain"], ir["inferred_plain"]),
+        not ir["unstable"] and not ir["illformed"] and not ir["unvalidated"] and ir["inferred_validated"] == ir["inferred"])
     ctx.coverage.update({"inference_functions": len(ir["funcs"]), "inference_contracts": ir["inferred"],
-                         "inference_plain_functions": ir["plain"], "inference_contracts_covered_by_soundness_theorem": ir["inferred_validated"]})
+                         "inference_plain_functions": ir["plain"], "inference_semiplain_functions": ir["semiplain"],
+                         "inference_contracts_covered_by_soundness_theorem": ir["inferred_validated"], "inference_contracts_semiplain": ir["inferred_semiplain"]})
     imism = ir["mism"]
 
     rng = random.Random(ctx.seed * 32452843 + 20)
@@ -163,7 +164,7 @@ def run(ctx):
         for f in (ir["unstable"] + ir["unvalidated"])[:1]:
             ctx.violation("infer-unstable", "the final state of the contract inference is not a post-fixpoint on this function (some table of a block, pushed over an edge, is missing from the successor): theorem C20_inferred_contract_true does not apply to what the inference returns; no run returning nil for a non-nil argument was found among the probes\n%s" % IS.describe(f), found_input=False)
         for f in ir["illformed"][:1]:
-            ctx.violation("infer-illformed", "the abstract SSA form of this function is not well-formed (a nil comparison with equal successors, or the parameter defined by an instruction): the semantics of proofs/InferSound.v does not describe it\n%s" % IS.describe(f), found_input=False)
+            ctx.violation("infer-illformed", "the abstract SSA form of this function is not well-formed (a nil comparison with equal successors, the parameter defined by an instruction, an entry block with predecessors, or a block with the same predecessor twice): the semantics of proofs/InferSound.v does not describe it\n%s" % IS.describe(f), found_input=False)
         for f in (ir["panics"] + ir["nofuel"])[:1]:
             ctx.violation("infer-run", "the real inference panicked / the model ran out of fuel on\n%s" % IS.describe(f), found_input=False)
         for (c, o, f) in bad["infer"][:3]:
@@ -174,7 +175,7 @@ def run(ctx):
         ctx.violation("proof", "a proof obligation of props/C20.v no longer checks:\n" + common.coq_error_excerpt(log), found_input=False)
     ctx.write_evidence(assumptions=[
         "infer_sem (model/Contract.v) is an upper bound of any sound intraprocedural inference over MiniGo, tied one-directionally (real => model) plus run-time probes; model M10 (model/Infer.v) is a transcription of functioncontracts/infer.go over the abstract SSA form rendered by the hook VerifInferAll, tied two-directionally",
-        "C20_inferred_contract_true covers functions all of whose values are plain (no ChangeInterface / MakeInterface / Slice / SliceToArrayPointer / append(x) / append(x, s...)): for the others nilnessOf follows operands, and the theorem says nothing",
+        "C20_inferred_contract_true / C20_inference_is_sound: the semantics keeps a wrapper value (ChangeInterface, MakeInterface, Slice, SliceToArrayPointer, append) in step with its operand in every state; that is exact for semiplain functions (operand computed in the same block or never computed by an instruction; counted in the evidence) and an idealisation justified by SSA dominance, not formalised, for the others",
         "the semantics of the abstract SSA form (proofs/InferSound.v: envok, edge_ok, enters) is nilaway's notion of nilness: stated, not derived from the Go specification",
         "contracts about the first declared parameter of a method (receiver + one parameter) are outside the modelled fragment; the generator does not produce such methods"])
 
